@@ -117,7 +117,9 @@ wait:
 		case <-time.After(500 * time.Millisecond):
 			if now := atomic.LoadInt64(tick); now != last {
 				last, lastChange = now, time.Now()
-			} else if time.Since(lastChange) > watchdog {
+			} else if time.Since(lastChange) > watchdog ||
+				(time.Since(lastChange) > 5*time.Second && atomic.LoadInt64(&dups)+atomic.LoadInt64(&lost) > 0) {
+				// (a hang after a failure has already been observed is not waited out in full)
 				return atomic.LoadInt64(&dups), atomic.LoadInt64(&lost), 1
 			}
 		}
@@ -171,8 +173,8 @@ func TestVerifC08Client(t *testing.T) {
 					}
 					out.printf("CL %d %d %d %d %d | %d %d %d\n", workers, ops, frames, pr, seed&0xffffffff, d, l, s)
 					out.w.Flush()
-					if s == 1 {
-						return // goroutines are stuck inside the lock: stop here
+					if s == 1 || d != 0 || l != 0 {
+						return // stuck inside the lock, or the failing input is found: stop here
 					}
 				}
 			}
